@@ -548,6 +548,10 @@ package stree
 //@   loop 1: invariant [C01,C04] below: i + 1 < len(path) ==> forall j int :: {callarg(f, j)} old(ncalls(f)) <= j && j < ncalls(f) ==> rank(compare, callarg(f, j)) in path[i + 1].keys
 //@   loop 1: invariant [C01,C04] nothing: ncalls(f) == old(ncalls(f)) && i + 1 < len(path) ==> forall k int :: {k in path[i + 1].keys} k in path[i + 1].keys ==> k < rank(compare, key)
 //@   loop 1: invariant [C01,C04] first: ncalls(f) > old(ncalls(f)) ==> forall k int :: {k in n.keys} inK(n, k) && k >= rank(compare, key) ==> k >= rank(compare, callarg(f, old(ncalls(f))))
+//@   at after "cur := path[i]": assert [C01,C04] cur != nil && cur in n.desc
+//@   at after "cur := path[i]": assert [C01,C04] forall k int :: {k in n.keys} k in n.keys && !(k in cur.keys) ==> ((k < rank(compare, key)) <==> (k < rank(compare, cur.X)))
+//@   at after "cur := path[i]": assert [C01,C04] ncalls(f) == old(ncalls(f)) && ord(compare, cur.X, key) >= 0 ==> forall k int :: {k in cur.keys} k in cur.keys && k >= rank(compare, key) ==> k >= rank(compare, cur.X)
+//@   at after "cur := path[i]": assert [C01,C04] ncalls(f) == old(ncalls(f)) && ord(compare, cur.X, key) >= 0 ==> forall k int :: {k in n.keys} inK(n, k) && k >= rank(compare, key) ==> k >= rank(compare, cur.X)
 //@   loop 1: decreases i + 1
 //@
 //@ func (*Tree).InorderAfter
